@@ -15,7 +15,7 @@ def run(idx, rep, tier):
         "real swap (R-WINDING), Minkowski pairing of the support queries (R-MINK), capacity checks dominate the stores "
         "(R-GUARDSTORE), vertex rows and the normal row of a face are never confused (R-FACEROLE: dimensional inference with rows 0-2 = "
         "length, row 3 = unit normal), the success path returns n*dot(new_point, n) under the convergence test of a loop capped by "
-        "max_iter (R-MTV), loop discipline (R-LOOP). Minimality of the vector and the residual gap are not decided.")
+        "max_iter (R-MTV), loop discipline (R-LOOP), index discipline around the swap-remove containers (R-SWAPREMOVE: no index looked up before a loop that removes; a scan that removes at its own position re-examines it). Minimality of the vector and the residual gap are not decided.")
     rep.assumptions = DOMAIN_D + ["the simplex handed over by GJK has four affinely independent points (any winding)"]
     it = e1(idx)
     scope = set(MODS) if tier == "quick" else None
@@ -47,5 +47,6 @@ def run(idx, rep, tier):
               "every returned translation vector must have length degree 1 (unit normal times a distance); inferred degrees %s" % (res,))
     misc2.r_dupcond(idx, rep, [m.name for m in idx.lib_modules()], floor=3)
     epa.r_loudcap(idx, rep)
+    epa.r_swapremove(idx, rep)
     degree.r_tolunit(idx, rep, ["distance3d.epa"], floor=1, face_arrays=degree.EPA_FACES)
     unpack.r_unpack(idx, rep, floor=1)
